@@ -29,8 +29,13 @@ pub struct Scn {
 }
 
 pub fn gen_scn(rng: &mut Prng, tier: Tier) -> Scn {
+    gen_scn_k(rng, tier, 9)
+}
+
+pub fn gen_scn_k(rng: &mut Prng, tier: Tier, k_cap: u32) -> Scn {
     let thorough = tier == Tier::Thorough;
     let k_max = if thorough { 9 } else { *rng.pick(&[6u32, 6, 7, 7, 8, 9]) };
+    let k_max = k_max.min(k_cap);
     let spec = gen_spec(rng, GenOpts { k_min: 4, k_max, allow_phases: true });
     let n_proofs = *rng.pick(&[1usize, 1, 1, 2, 2, 3, 4]);
     let witnesses = (0..n_proofs).map(|_| gen_witness(rng, &spec)).collect();
@@ -143,7 +148,7 @@ impl Check for C01 {
         };
         run_honest(&s, st)
     }
-    fn shrink(&self, scn: &Value) -> Vec<Value> {
+    fn shrink(&self, scn: &Value, _viol: &Viol) -> Vec<Value> {
         let s: Scn = serde_json::from_value(scn.clone()).unwrap();
         shrink_scn(&s).into_iter().map(|s| serde_json::to_value(s).unwrap()).collect()
     }
